@@ -349,7 +349,9 @@ async fn run(case: Json, tol: Tolerate) -> Outcome {
         // several rounds (virtual time is free)
         let mut idle = 0;
         let mut last_bytes: u64 = t.nodes.iter().map(|x| x.spk.bytes_rx).sum();
-        for _ in 0..20000 {
+        // (an initial dump of 1500 routes whose attributes leave room for one NLRI per frame is 6 MB:
+        // 20 000 window-fulls; the per-run wall-clock watchdog bounds a transfer that never ends)
+        for _ in 0..400_000 {
             let n = t.settle().await;
             let busy = t.nodes.iter().any(|x| x.spk.conn.as_ref().is_some_and(|c| c.ctl().in_flight()));
             // a frame larger than the window arrives in pieces: bytes moved = not idle
